@@ -380,16 +380,17 @@ class TOFUDatabase:
         if not isinstance(data["hosts"], dict):
             raise ValueError("Invalid TOML: 'hosts' must be a table")
 
-        # Clear database if not merging
-        if not merge:
-            self.clear()
-
         added_count = 0
         updated_count = 0
         skipped_count = 0
 
         with self._connection() as conn:
             cursor = conn.cursor()
+
+            # Replace mode: clear inside the same transaction as the inserts, so
+            # that a failing import leaves the store untouched
+            if not merge:
+                cursor.execute("DELETE FROM known_hosts")
 
             for key, host_data in data["hosts"].items():
                 # Validate required fields
@@ -424,8 +425,18 @@ class TOFUDatabase:
                         f"has invalid fingerprint format: {fingerprint}"
                     )
 
-                # Check if host already exists
-                existing = self.get_host_info(hostname, port)
+                # Check if host already exists (on this connection, so that rows
+                # written earlier in this import are seen)
+                cursor.execute(
+                    """
+                    SELECT hostname, port, fingerprint, first_seen, last_seen
+                    FROM known_hosts
+                    WHERE hostname = ? AND port = ?
+                    """,
+                    (hostname, port),
+                )
+                row = cursor.fetchone()
+                existing = dict(row) if row is not None else None
 
                 if existing is None:
                     # New host - add it
